@@ -825,6 +825,10 @@ fn write_evidence(def: &check::CheckDef, prop: &str, tier: &str, seed: u64, runs
             "a run that reaches no scheduling point for 30 s of wall-clock time is reported as stuck (the only verdict that reads a real clock)"
         ]
     });
+    // sensitivity tools run the checks against deliberately broken trees: those runs must not replace the evidence
+    if std::env::var_os("VERIF_NO_EVIDENCE").is_some() {
+        return;
+    }
     let dir = format!("{}/evidence", base_dir());
     let _ = std::fs::create_dir_all(&dir);
     std::fs::write(format!("{}/{}.json", dir, prop), serde_json::to_string_pretty(&ev).unwrap()).expect("write evidence");
